@@ -10,6 +10,10 @@ type packetAccumulator struct {
 	pid        uint16
 	programMap *programMap
 	q          []*Packet
+
+	// Second set of packets completed by the last packet added, when it completed two: the set that was pending is
+	// returned first, this one is next
+	next []*Packet
 }
 
 // newPacketAccumulator creates a new packet queue for a single PID
@@ -53,7 +57,12 @@ func (b *packetAccumulator) add(p *Packet) (ps []*Packet) {
 	if b.programMap != nil &&
 		(b.pid == PIDPAT || b.programMap.existsUnlocked(b.pid)) &&
 		isPSIComplete(mps) {
-		ps = mps
+		// The packet may have flushed a set that was pending as well: it goes first, none of the two is lost
+		if len(ps) > 0 {
+			b.next = mps
+		} else {
+			ps = mps
+		}
 		mps = nil
 	}
 
@@ -65,6 +74,10 @@ func (b *packetAccumulator) add(p *Packet) (ps []*Packet) {
 type packetPool struct {
 	// We use map[uint32] instead map[uint16] as go runtime provide optimized hash functions for (u)int32/64 keys
 	b map[uint32]*packetAccumulator // Indexed by PID
+
+	// Set of packets that is complete but has not been returned yet since the packet that completed it completed
+	// another one as well
+	ready []*Packet
 
 	programMap *programMap
 }
@@ -99,7 +112,16 @@ func (b *packetPool) addUnlocked(p *Packet) (ps []*Packet) {
 	}
 
 	// Add to the accumulator
-	return acc.add(p)
+	ps = acc.add(p)
+	b.ready, acc.next = acc.next, nil
+	return
+}
+
+// readyUnlocked returns, once, the set of packets the last packet added has completed on top of the one addUnlocked
+// has returned
+func (b *packetPool) readyUnlocked() (ps []*Packet) {
+	ps, b.ready = b.ready, nil
+	return
 }
 
 // dumpUnlocked dumps the packet pool by looking for the first item with packets inside
